@@ -691,6 +691,7 @@ func runC16(cfg Config) {
 	c16WindowChunks(cfg, rep, rng)
 	runGCSPrune(cfg, rep, m, rng)
 	storeOptsStores(cfg, rep, m, rng) // which configuration entry (format) a store is opened with, symlinked locations included
+	c16VerifyCLI(cfg, rep, rng) // the `desync verify` command on badly damaged stores (c16verifycli.go)
 	rep.Write(cfg.Out)
 }
 
